@@ -156,6 +156,9 @@ fn body(space: Space, build_kinds: &'static [GraphKind], opts: Vec<Opts>) -> imp
     let n_specs = space.n_specs;
     let world = space.generate(ch, 2, None);
     let with_import = ch.choose("configured_type_import", 2) == 1;
+    // a graph built with skip_dynamic_deps records dynamic dependencies whose
+    // targets it never loaded: a walk that follows them meets absent entries
+    let skip_dynamic = ch.choose("graph_built_with_skip_dynamic_deps", 2) == 1;
     let mut outcomes = vec![];
     for build_kind in build_kinds {
       let sched = Sched::new(SchedMode::Immediate);
@@ -177,6 +180,7 @@ fn body(space: Space, build_kinds: &'static [GraphKind], opts: Vec<Opts>) -> imp
         BuildCfg {
           unstable_bytes: true,
           unstable_text: true,
+          skip_dynamic_deps: skip_dynamic,
           imports,
           ..Default::default()
         },
@@ -201,7 +205,7 @@ fn body(space: Space, build_kinds: &'static [GraphKind], opts: Vec<Opts>) -> imp
       for roots in &root_sets {
         for o in opts.iter().copied() {
           let case = || {
-            json!({"world": world.describe(), "build_kind": format!("{build_kind:?}"), "configured_type_import": with_import,
+            json!({"world": world.describe(), "build_kind": format!("{build_kind:?}"), "configured_type_import": with_import, "built_with_skip_dynamic_deps": skip_dynamic,
               "walk_roots": roots.iter().map(|r| r.as_str()).collect::<Vec<_>>(), "options": format!("{o:?}")})
           };
           // skips are only exercised for one check_js setting to bound the cost
@@ -211,7 +215,7 @@ fn body(space: Space, build_kinds: &'static [GraphKind], opts: Vec<Opts>) -> imp
       }
       outcomes.push(hash_json(&obs(&g)["slots"]));
     }
-    run.state_key = hash_of(&(world.key(), with_import));
+    run.state_key = hash_of(&(world.key(), with_import, skip_dynamic));
     run.nontrivial = world.edges.len() >= 2 || world.edges.iter().any(|e| e.form != Form::Import);
     run.outcome_key = hash_of(&outcomes);
     if ch.describe() {
